@@ -75,6 +75,16 @@ Proof.
   - rewrite IHb, IHh. reflexivity.
 Qed.
 
+(* compiled programs contain no break / continue / return *)
+Lemma compile_exits_ok p : forall s ret brk, exits_ok ret brk (compile p s) = true.
+Proof.
+  induction p as [|n o|p IHp q IHq|b IHb fs h IHh]; intros s ret brk; cbn [compile exits_ok].
+  - reflexivity.
+  - destruct (first_failure S nat (guards S nat o) s); reflexivity.
+  - now rewrite IHp, IHq.
+  - now rewrite IHb, IHh.
+Qed.
+
 Definition ticks (t : list event) : list nat :=
   flat_map (fun e => match e with ETick n _ => [n] | EHandler _ _ _ => [] end) t.
 
@@ -105,8 +115,10 @@ Proof.
     + destruct IHb as [Ht [-> ->]].
       destruct (matches fs e) eqn:M.
       * specialize (IHh s1 d 1). destruct (ref_run d 1 (compile h s1)) as [[t2 r2] c2].
-        destruct IHh as [Ht2 Hr2]. split; [|exact Hr2].
-        rewrite ticks_app, Ht. cbn [ticks flat_map app]. fold (ticks t2). rewrite Ht2. reflexivity.
+        destruct IHh as [Ht2 Hr2]. split.
+        -- rewrite ticks_app, Ht. cbn [ticks flat_map app]. fold (ticks t2). rewrite Ht2. reflexivity.
+        -- (* compiled programs contain no break/continue/return: the handler ends as itself *)
+           destruct (snd (crun h s1)); [destruct Hr2 as [-> ->] | subst r2]; cbn; auto.
       * cbn. rewrite Ht, app_nil_r. auto.
     + destruct IHb as [Ht ->]. cbn. rewrite Ht, app_nil_r. auto.
 Qed.
@@ -137,7 +149,7 @@ Theorem machine_runs_compiled p s :
   ticks tr = cdone p s /\ depth st' = 0 /\
   r = match snd (crun p s) with None => MNormal | Some e => MDied (Some e) 1 end.
 Proof.
-  intros Hn. pose proof (whole_program (compile p s)) as W.
+  intros Hn. pose proof (whole_program (compile p s) (compile_exits_ok p s true false)) as W.
   rewrite compile_nesting in W. specialize (W Hn).
   pose proof (ref_run_compile p s 0 0) as R.
   destruct (mach (compile p s) st_init) as [[tr r] st'].
